@@ -68,12 +68,14 @@ def pname(p):
 class AbsMapBase:
     """Topology + listing helpers shared by AbsMap and TableMap."""
 
-    def _init_topo(self, graph, linked=None, self_listed=True, order=None):
+    def _init_topo(self, graph, linked=None, self_listed=True, order=None, canon=None, scale=None):
         self.G = {k: list(v) for k, v in graph.items()}
         self.linked = linked or {}
         self.self_listed = self_listed
         self.order = order          # callable(list, tag) -> list : listing order chosen by the environment
-        self.loc = {n: P(f"n{n}") for n in self.G}
+        self.canon = canon or {}    # label -> canonical name used for the geometry symbols (relabelling keeps the geometry)
+        self.scale = scale          # all distances multiplied by this positive constant (None = 1)
+        self.loc = {n: P(f"n{self.canon.get(n, n)}") for n in self.G}
         self.calls = []
 
     def _ord(self, lst, tag):
@@ -149,9 +151,9 @@ def make_absmap_class():
     from leuvenmapmatching.map.base import BaseMap
 
     class AbsMap(AbsMapBase, BaseMap):
-        def __init__(self, graph, linked=None, self_listed=True, order=None, memo=None):
+        def __init__(self, graph, linked=None, self_listed=True, order=None, memo=None, canon=None, scale=None):
             BaseMap.__init__(self, "abs", use_latlon=False)
-            self._init_topo(graph, linked, self_listed, order)
+            self._init_topo(graph, linked, self_listed, order, canon, scale)
             self.memo = {} if memo is None else memo
             self.distance = self._distance
             self.distance_point_to_segment = self._dps
@@ -168,7 +170,11 @@ def make_absmap_class():
                 eng = E.get_engine()
                 q = z3.Real("q_" + key)
                 eng.assume(q >= 0)
-                self.memo[k] = eng.sqrt_of(q, name="d_" + key)
+                if self.scale is None:
+                    self.memo[k] = eng.sqrt_of(q, name="d_" + key)
+                else:
+                    c = E.rv(self.scale)
+                    self.memo[k] = eng.sqrt_of(c * c * q, name=f"d{self.scale}_" + key)
             return self.memo[k]
 
         def t(self, key):
@@ -205,9 +211,9 @@ def make_tablemap_class():
         """Concrete map over opaque points: distances and relative positions looked up in a table
         (key -> float); missing keys get `default`."""
 
-        def __init__(self, graph, table, linked=None, self_listed=True, order=None, default=1.0):
+        def __init__(self, graph, table, linked=None, self_listed=True, order=None, default=1.0, canon=None, scale=None):
             BaseMap.__init__(self, "table", use_latlon=False)
-            self._init_topo(graph, linked, self_listed, order)
+            self._init_topo(graph, linked, self_listed, order, canon, scale)
             self.table = table
             self.default = default
             self.distance = self._distance
@@ -215,7 +221,7 @@ def make_tablemap_class():
             self.distance_segment_to_segment = self._dss
 
         def _d(self, key):
-            return float(self.table.get('d:' + key, self.default))
+            return float(self.table.get('d:' + key, self.default)) * (1.0 if self.scale is None else self.scale)
 
         def _t(self, key):
             return float(self.table.get('t:' + key, 0.5))
